@@ -107,7 +107,12 @@ def _worker_shape(args):
                     info['detail'] = detail
                     res['replays'].append(info)
         if stats['cover'] == 0 and not stats['unsupported'] and not stats['errors']:
-            res['vacuous'] = True
+            if getattr(shape, 'may_be_empty', False):
+                # the shape asks for inputs the library may legitimately refuse to construct: nothing to prove, nothing counted
+                res['clauses'] = {}
+                res['empty_domain'] = True
+            else:
+                res['vacuous'] = True
         # native cross-check / bounded stand-in
         need_bounded = (not shape.stable) or undecided_shape or any(x['verdict'] == 'undecided' for x in res['clauses'].values()) \
             or (any_refuted and not any(r.get('reproduced') for r in res['replays']))
@@ -407,6 +412,8 @@ def aggregate(prop, tier, seed, results, t_start, write_baseline, extra_mod, qui
         cross = r.get('cross')
         if cross:
             cross_evals += cross['evaluations']
+        if r.get('empty_domain'):
+            continue
         if not r['clauses'] and not st['errors']:
             # nothing could be explored at all
             oid = obligation_id(prop, q, shp, 'all')
